@@ -149,7 +149,7 @@ def check_C01(chk, tier, seed):
                 if has_fixed_mismatch(m) and kf1_open("C01"):
                     chk.known("KF-1")
                 else:
-                    chk.violation(why + " (history starting from a decoded frame)", dict(case=short(c, 3000), impl=short(im, 3000), reference=short(t[1], 3000)))
+                    chk.violation(why + " (history starting from a decoded frame)", dict(case=c, impl=short(im, 3000), reference=short(t[1], 3000)))
     for i, (c, im, mo) in enumerate(allc):
         toks = c.split()
         nontrivial = " A " in im or " A " in mo
@@ -163,7 +163,7 @@ def check_C01(chk, tier, seed):
         if "DEPTH" in o:
             chk.count("depth:" + o["DEPTH"])
         if i % max(1, len(allc) // 5) == 0:
-            chk.sample(dict(case=short(c, 300), impl=short(im, 300), P=ok))
+            chk.sample(dict(case=c, impl=short(im, 300), P=ok))
     chk.rule = (f"exhaustive table of 18 kinds x vendor x M/P x length residue ({ntable} cases) + regression corpus + "
                 f"{n} generated construction histories over 3 dictionaries + decode-then-extend of reference frames; "
                 "non-trivial = message has at least one AVP; distinct by SHA-256 of the case line")
@@ -355,7 +355,7 @@ def check_C02(chk, tier, seed):
                 chk.violation("decode(encode(m)) differs from m (header fields, AVP order, code, vendor, flags, type, value, reported lengths)",
                               dict(case=c, stage2=short(stage2[k], 3000), original=short(im, 3000), decoded=short(i2, 3000)))
             elif k % max(1, len(idx) // 5) == 0:
-                chk.sample(dict(case=short(c, 300), decoded=short(i2, 200), P=True))
+                chk.sample(dict(case=c, decoded=short(i2, 200), P=True))
         if i2 != m2obs:
             chk.corr_break("decoder observation differs from the model on an encoded frame", dict(case=stage2[k], impl=short(i2, 3000), model=short(m2obs, 3000)))
         if im != mobs and in_dom:
@@ -524,7 +524,7 @@ def check_C03(chk, tier, seed):
         if ok and im != mobs:
             chk.corr_break("decoder observation differs from the model", dict(case=c, kind=kind, impl=short(im, 3000), model=short(mobs, 3000)))
         if i % max(1, len(fam) // 6) == 0:
-            chk.sample(dict(case=short(c, 200), kind=kind, impl=short(im, 120), P=ok))
+            chk.sample(dict(case=c, kind=kind, impl=short(im, 120), P=ok))
     chk.rule = (f"{len(frames)} reference-encoded corpus frames; per frame: as is, 3 rewrites of padding octets/reserved bits (must be accepted, same tree), "
                 "length-field rewrites (message, AVP, nested AVP: 0..64, true+-{1,2,3,4,8}, 2^24-1 ...), structure-aware lies, havoc, truncations, "
                 "random octets; accepted complete frames judged by the extracted checker chk_msg + reference encoder; non-trivial = longer than the header")
@@ -571,13 +571,13 @@ def check_C04(chk, tier, seed):
         chk.validated += 1
         if im.startswith("PANIC") or im.startswith("CRASH"):
             chk.count("impl:crash")
-            chk.violation("decoder did not return: " + short(im, 160), dict(case=short(c, 200000), kind=kind, impl=short(im)))
+            chk.violation("decoder did not return: " + short(im, 160), dict(case=c, kind=kind, impl=short(im)))
             continue
         chk.count("impl:" + im.split()[0])
         if i in model:
             mobs, _ = split_obs(model[i])
             if mobs.startswith("PANIC") or mobs.startswith("OUTOFFUEL"):
-                chk.corr_break("model outcome " + mobs[:12] + " (contradicts theorem C04_never_panics: the runner is broken)", dict(case=short(c, 3000)))
+                chk.corr_break("model outcome " + mobs[:12] + " (contradicts theorem C04_never_panics: the runner is broken)", dict(case=c))
             elif im != mobs:
                 known = False
                 if im.startswith("OK "):
@@ -586,9 +586,9 @@ def check_C04(chk, tier, seed):
                     except Exception:
                         pass
                 if not known:
-                    chk.corr_break("decoder observation differs from the model", dict(case=short(c, 3000), kind=kind, impl=short(im, 2000), model=short(mobs, 2000)))
+                    chk.corr_break("decoder observation differs from the model", dict(case=c, kind=kind, impl=short(im, 2000), model=short(mobs, 2000)))
         if i % max(1, len(fam) // 6) == 0:
-            chk.sample(dict(case=short(c, 160), kind=kind, impl=short(im, 100)))
+            chk.sample(dict(case=c, kind=kind, impl=short(im, 100)))
     chk.rule = ("every family of hostile frame (truncations, length-field sweeps, lies, havoc, random) over the corpus + nesting 1..70 and up to 131000 levels "
                 "(1 MiB); decoded on a 2 MiB thread in a worker process, returned messages are formatted (Display), inspected through every accessor and "
                 "re-encoded; P = the worker returned Ok or Err (no unwind, abort, hang); non-trivial = non-empty input")
@@ -729,7 +729,7 @@ def check_C05(chk, tier, seed):
         if ok and o.get("CAPS") == "1" and "?" not in mobs.split()[:4] and im != mobs:
             chk.corr_break("encode_to observation differs from the model", dict(case=c, impl=short(im, 2000), model=short(mobs, 2000)))
         if i % max(1, len(cases) // 6) == 0:
-            chk.sample(dict(case=short(c, 200), impl=short(im, 120), P=ok))
+            chk.sample(dict(case=c, impl=short(im, 120), P=ok))
     chk.rule = (f"{len(corpus)} in-domain corpus messages x every budget k in [0, len) (quick: all k up to 160 octets, else 160 sampled incl. boundaries) and k >= len, "
                 "each with default / one-octet-per-call / random capped+interrupted writer behaviour; Times at and beyond both ends of the wire range at "
                 "nesting 0..2; AVP/message sizes 2^24-32 .. 2^24 (implementation only); reference frame from the extracted reference encoder")
@@ -764,7 +764,7 @@ def check_C18(chk, tier, seed):
         if im.startswith("R err") or im.startswith("PANIC") or not hi.startswith("R ok"):
             chk.case(c, False)
             if im != mo:
-                chk.corr_break("start outcome differs", dict(case=short(c, 2000), impl=short(im), model=short(mo)))
+                chk.corr_break("start outcome differs", dict(case=c, impl=short(im), model=short(mo)))
             continue
         try:
             m = parse_result(hi)["msg"]
@@ -772,10 +772,20 @@ def check_C18(chk, tier, seed):
             items = head.split()[2:]
             qs = q.split()
         except Exception as e:
-            chk.violation(f"unparsable accessor observation: {e}", dict(case=short(c, 2000), impl=short(im)))
+            chk.violation(f"unparsable accessor observation: {e}", dict(case=c, impl=short(im)))
             continue
         chk.case(c, len(m["avps"]) >= 2)
         why = []
+        # "in wire order": the order of get_avps() against the order of the AVPs in the octets the message encodes to
+        try:
+            wire = wire_top_level(bytes.fromhex(parse_result(hi)["enc"].lstrip("x")))
+        except Exception:
+            wire = None
+        if wire is not None and not has_fixed_mismatch(m):      # KF-1 frames re-encode inconsistently: not walkable by their own lengths
+            listed = [(int(a["code"], 16), None if a["vendor"].startswith("-") else int(a["vendor"], 16)) for a in m["avps"]]
+            chk.count("wire-order:compared")
+            if listed != wire:
+                why.append(f"get_avps() lists the top-level AVPs as {listed[:6]}, on the wire they are {wire[:6]}")
         if len(items) != len(m["avps"]):
             why.append("get_avps() does not list every top-level AVP")
         else:
@@ -793,14 +803,37 @@ def check_C18(chk, tier, seed):
             if got != want:
                 why.append(f"get_avp({code}) returned {got}, the first AVP with that code in wire order is {want}")
         if why:
-            chk.violation("; ".join(why[:3]), dict(case=short(c, 3000), impl=short(im, 3000), message=short(hi, 3000)))
+            chk.violation("; ".join(why[:3]), dict(case=c, impl=short(im, 3000), message=short(hi, 3000)))
         elif im != mo:
-            chk.corr_break("accessor observation differs from the model", dict(case=short(c, 3000), impl=short(im, 3000), model=short(mo, 3000)))
+            chk.corr_break("accessor observation differs from the model", dict(case=c, impl=short(im, 3000), model=short(mo, 3000)))
         if i % max(1, len(cases) // 6) == 0:
-            chk.sample(dict(case=short(c, 200), impl=short(im, 200), P=not why))
+            chk.sample(dict(case=c, impl=short(im, 200), P=not why))
     chk.rule = ("type table + generated construction histories (repeated codes under different vendors/types, groups) + decoded-then-extended frames; "
                 "for the final message: all 16 typed accessors on every AVP (recursively through Grouped::avps()), get_avp for 7 codes (present, repeated, "
                 "absent) identified by pointer position in get_avps(); non-trivial = at least two top-level AVPs")
+
+
+def wire_top_level(b):
+    """(code, vendor) of the top-level AVPs of an encoded message, read off the octets; None if they cannot be walked"""
+    if len(b) < 20:
+        return None
+    out, off = [], 20
+    while off < len(b):
+        if off + 8 > len(b):
+            return None
+        code = int.from_bytes(b[off:off + 4], "big")
+        fl = b[off + 4]
+        ln = int.from_bytes(b[off + 5:off + 8], "big")
+        vend = None
+        if fl & 0x80:
+            if off + 12 > len(b):
+                return None
+            vend = int.from_bytes(b[off + 8:off + 12], "big")
+        if ln < 8:
+            return None
+        out.append((code, vend))
+        off += ln + (-ln) % 4
+    return out if off == len(b) else None
 
 
 def getter_mismatch(a, item):
